@@ -147,6 +147,10 @@ func (c *Ctx) registerBeforeSend() {
 				c.R.Ok(ruleP2, fname(fn)+":QoS0-not-registered", c.P.Pos(fn.Pos()), "QoS 0 publishes are not registered")
 			}
 			as2 := Assume{atomQoS0: true, atomWriteOK: false, "nonnil:onComplete": true}
+			// a publish at QoS 0 has a message: an argument check `msg == nil` in front does not concern it
+			if len(fn.Params) > 1 {
+				as2["nonnil:"+ir.RootName(fn.Params[1])] = true
+			}
 			if p := mustPass(g, []paths.Node{g.Entry()}, compl, as2); p != nil {
 				c.R.Bad(ruleP2, fname(fn)+":QoS0-completes-at-once", c.P.Pos(fn.Pos()), "a QoS 0 publish returns without invoking its completion callback", c.witness(g, p)...)
 			} else {
